@@ -57,9 +57,9 @@ func TestMain(m *testing.M) {
 		evid.Spec{Name: "TestReplay", Kind: "plain", QuickShards: 1, ThoroughShards: 1},
 		evid.Spec{Name: "TestPropSearch", Kind: "rapid", Quick: 8000, Thorough: 240000, QuickShards: 8, ThoroughShards: 16, TimeoutS: 3000},
 		evid.Spec{Name: "TestPropIndex", Kind: "rapid", Quick: 6000, Thorough: 160000, QuickShards: 8, ThoroughShards: 16, TimeoutS: 3000},
-		evid.Spec{Name: "TestPropLong", Kind: "rapid", Quick: 160, Thorough: 12000, QuickShards: 8, ThoroughShards: 16, TimeoutS: 3000},
-		evid.Spec{Name: "TestPropHistory", Kind: "rapid", Quick: 120, Thorough: 8000, QuickShards: 8, ThoroughShards: 16, TimeoutS: 3000},
-		evid.Spec{Name: "TestPropBigDB", Kind: "rapid", Quick: 4, Thorough: 96, QuickShards: 4, ThoroughShards: 16, TimeoutS: 3000},
+		evid.Spec{Name: "TestPropLong", Kind: "rapid", Quick: 160, Thorough: 4000, QuickShards: 8, ThoroughShards: 16, TimeoutS: 3000},
+		evid.Spec{Name: "TestPropHistory", Kind: "rapid", Quick: 120, Thorough: 2400, QuickShards: 8, ThoroughShards: 16, TimeoutS: 3000},
+		evid.Spec{Name: "TestPropBigDB", Kind: "rapid", Quick: 4, Thorough: 64, QuickShards: 4, ThoroughShards: 16, TimeoutS: 3000},
 	)
 	evid.Note("rule", "A case is a reference database of 2..60 sequences (20..150 nt over acgt, also acg/ac and tandem repeats; 1..4 families built by mutation of a founder, of a sibling or of the query itself: 0..10 substitutions/insertions/deletions of a drawn kind mix, flanks added (longer) or ends removed (shorter), exact duplicates, unrelated sequences), a taxonomy of 1..25 nodes (C14 generator: random, deep, chain, star, caterpillar, broom, binary; root taxid 1) with each family mostly inside one clade, and a query (8..180 nt: 0..6 edits from the founder of family 0, ends possibly changed, or unrelated). "+
 		"Oracle: the query (resp. the indexed reference) is aligned with EVERY reference by an independent full-matrix LCS; distance = alignment length - LCS; best set = all references at the minimum. "+
